@@ -255,6 +255,51 @@ func runIdxStream(seed int64, n int, out, backendSpec string) *RunReport {
 			}
 		}
 	}
+	// the range algebra exhaustively over a small set: all 100 ranges with bounds in {nil, 1, 3, 3.0, "a"} and both flags,
+	// all 10 000 ordered pairs, against membership of the probes
+	{
+		small := []interface{}{nil, int64(1), int64(3), float64(3), "a"}
+		probes := []interface{}{nil, int64(0), int64(1), int64(2), uint64(3), float64(3.5), "", "a", "b", true}
+		var rs []*index.Range
+		for _, a := range small {
+			for _, b := range small {
+				for _, si := range []bool{false, true} {
+					for _, ei := range []bool{false, true} {
+						if a == nil && b == nil && !(si && ei) {
+							continue // outside the quantified domain: at least one non-nil bound, or the nil-only range
+						}
+						rs = append(rs, &index.Range{Start: a, End: b, StartIncluded: si, EndIncluded: ei})
+					}
+				}
+			}
+		}
+		for _, r1 := range rs {
+			for _, v := range probes {
+				if r1.IsEmpty() && rangeDenotes(r1.Start, r1.End, r1.StartIncluded, r1.EndIncluded, v) {
+					f.failf("range %+v is reported empty but contains %s", *r1, gValue(v))
+				}
+			}
+			for _, r2 := range rs {
+				var ri *index.Range
+				func() {
+					defer func() { recover() }()
+					ri = r1.Intersect(r2)
+				}()
+				evals++
+				if ri == nil {
+					f.failf("Intersect panicked on %+v and %+v", *r1, *r2)
+					continue
+				}
+				for _, v := range probes {
+					if rangeDenotes(r1.Start, r1.End, r1.StartIncluded, r1.EndIncluded, v) && rangeDenotes(r2.Start, r2.End, r2.StartIncluded, r2.EndIncluded, v) &&
+						!(rangeDenotes(ri.Start, ri.End, ri.StartIncluded, ri.EndIncluded, v) || scanSet(ri, v)) {
+						f.failf("Intersect(%+v, %+v) = %+v excludes %s which lies in both", *r1, *r2, *ri, gValue(v))
+					}
+				}
+			}
+		}
+		distinct["range-algebra-exhaustive"] = true
+	}
 	files := cs.Write(out, "idx")
 	return &RunReport{Stream: "idx", Seed: seed, Evaluations: evals, Distinct: len(distinct) + len(shapes),
 		Rule:         "one evaluation = one IterateRange/Iterate call on an index populated through Add (uncommitted and committed, both backends), visited ids compared with the model and, inside the key domain, with membership-by-Compare in value order; or one Intersect/IsEmpty call checked against membership over the value pool; distinct = distinct range shapes x result sizes",
